@@ -53,6 +53,14 @@ SpectroscopicSightLineGroup, SpectroscopicFibreOpticGroup, BolometerCamera):
     y_width := current x_width, radius := acceptance_angle, pixel_samples := samples_per_task, ...); the read-back must
     equal the assigned sequence in every case.
 
+  * scene placement: the group sits under 0 / 1 / 2 transformed nodes (with or without a World root) and has an
+    identity / translated / rotated / translated+rotated transform of its own; every case kind runs under a drawn
+    placement and a fixed block drives every attribute under every placement class. Members hold group-frame values,
+    so assign / read-back must be independent of where the group sits;
+  * round trip: group.attr = group.attr must change nothing for every attribute with a getter and a setter (origin /
+    direction: values equal within 1e-12, the member's own roll about the sight line is not judged; display_progress /
+    accumulate have per-pipeline getters and are excluded; names only when every member is named).
+
 The oracle shares no code with cherab: expectations are computed from the case description and from values read
 directly from the member observers (Raysect objects).
 """
@@ -94,15 +102,15 @@ ASSUMPTIONS = [
 ]
 QUICK = dict(cases=2000, workers=2, timecap=25)
 THOROUGH = dict(cases=300000, workers=16, timecap=300)
-REQUIRED = {"registry": 2, "assign_scalar": 300, "assign_seq": 1200, "wronglen": 2500, "getter": 10000,
+REQUIRED = {"registry": 2, "assign_scalar": 300, "assign_seq": 1200, "wronglen": 2000, "getter": 10000,
             "snapshot_members": 20000, "lookup_index": 500, "lookup_slice": 800, "lookup_name": 300, "invariant": 5000,
             "hook_invariant": 5000, "foreign": 500, "observe_members": 50, "history_ops": 5000, "random_histories": 50,
             "alias_container": 200, "alias_values": 800, "alias_add": 100, "alias_getter": 800, "alias_two_groups": 60,
             "entry_states": 1500, "entry:already-parented-to-this-group": 50, "entry:already-a-member": 100,
             "entry:member-of-another-group": 50, "entry:parented-to-another-group": 50, "entry:parented-to-world": 50,
             "entry:parented-to-a-node": 50, "entry:no-parent": 300, "dup_assign": 100,
-            "rejected_ops": 500, "rejected_other_groups": 200,
-            "assign_current_values": 1500, "observe_nonmembers": 300, "observe_diverged": 60,
+            "rejected_ops": 400, "rejected_other_groups": 150,
+            "assign_current_values": 1200, "observe_nonmembers": 300, "observe_diverged": 60,
             "roundtrip": 1500, "placed_nontrivially": 500}
 
 CLASSES = ["SightLineGroup", "FibreOpticGroup", "PixelGroup", "TargettedPixelGroup",
